@@ -289,7 +289,26 @@ pub fn gen_frame(kind: &str, rng: &mut Rng) -> Vec<u8> {
     let ws: &[&str] = &[" ", "\n", "\t", "\r", "  \n"];
     let base: &[&str] = if is_call(kind) { valid_calls } else { valid_replies };
     let other: &[&str] = if is_call(kind) { valid_replies } else { valid_calls };
-    match rng.below(12) {
+    match rng.below(14) {
+        12 => {
+            // long raw bytes incl. invalid UTF-8 (never NUL): undecodable frames well beyond any log-preview length
+            let n = rng.range(13, 220);
+            let hi = rng.chance(1, 2);
+            (0..n).map(|_| if hi { rng.range(128, 255) as u8 } else { rng.range(1, 255) as u8 }).collect()
+        }
+        13 => {
+            // a JSON document of the wrong shape (unknown method / unknown error) carrying multi-byte text at
+            // every alignment, 40..200 bytes
+            let fill = *rng.pick(&["é", "ü", "日本", "😅", "€"]);
+            let shift: String = "abc"[..rng.below(4)].to_string();
+            let reps = rng.range(8, 60);
+            let body: String = std::iter::repeat(fill).take(reps).collect();
+            if is_call(kind) {
+                format!(r#"{{"method":"x.Nope","parameters":{{"t":"{shift}{body}"}}}}"#).into_bytes()
+            } else {
+                format!(r#"{{"error":"x.Nope{shift}{body}","parameters":{{"t":7}}}}"#).into_bytes()
+            }
+        }
         0..=4 => rng.pick(base).as_bytes().to_vec(),
         5 => rng.pick(other).as_bytes().to_vec(),
         6 | 7 => rng.pick(malformed).as_bytes().to_vec(),
